@@ -73,13 +73,14 @@ type Plan struct {
 	SchedSeed  uint64       `json:"sched_seed"`
 	Steps      []string     `json:"steps,omitempty"` // replay: labels to take (lenient)
 	MaxSteps   int          `json:"max_steps"`
-	ConvFail   bool         `json:"conv_fail,omitempty"`   // converter transient failures
-	ConvGarble bool         `json:"conv_garble,omitempty"` // converter breaks the protocol once per stream version (one malformed line, then a normal answer)
-	MergeFail  bool         `json:"merge_fail,omitempty"`  // disk error: creating the merged index file fails (every merge)
-	ImportFail int          `json:"import_fail,omitempty"` // disk error: the first n index file creations of imports fail
-	WriteFail  []WriteFault `json:"write_fail,omitempty"`  // disk full during one step
-	Restarts   []int        `json:"restarts,omitempty"`    // clean restart after these step numbers
-	CrashEvery int          `json:"crash_every,omitempty"` // C12: snapshot at every n-th changed I/O point (1 = all)
+	ConvFail   bool         `json:"conv_fail,omitempty"`    // converter transient failures
+	ConvGarble bool         `json:"conv_garble,omitempty"`  // converter breaks the protocol once per stream version (one malformed line, then a normal answer)
+	MergeFail  bool         `json:"merge_fail,omitempty"`   // disk error: creating the merged index file fails (every merge)
+	MergeFailN int          `json:"merge_fail_n,omitempty"` // ... or only the first n merges (later ones succeed)
+	ImportFail int          `json:"import_fail,omitempty"`  // disk error: the first n index file creations of imports fail
+	WriteFail  []WriteFault `json:"write_fail,omitempty"`   // disk full during one step
+	Restarts   []int        `json:"restarts,omitempty"`     // clean restart after these step numbers
+	CrashEvery int          `json:"crash_every,omitempty"`  // C12: snapshot at every n-th changed I/O point (1 = all)
 	CrashMax   int          `json:"crash_max,omitempty"`
 	Listener   bool         `json:"listener,omitempty"` // attach an event listener
 	Loopback   bool         `json:"loopback,omitempty"` // C20: a PCAP-over-IP endpoint served over a real loopback socket (not replayable)
@@ -241,12 +242,18 @@ func Gen(prop, tier string, seed, run uint64) Plan {
 	}
 	if prop == "C09" || prop == "C13" {
 		p.MergeFail = r.IntN(5) == 0
+		if !p.MergeFail && r.IntN(5) == 0 {
+			p.MergeFailN = 1 + r.IntN(2)
+		}
 		if r.IntN(6) == 0 {
 			p.ImportFail = 1 + r.IntN(2)
 		}
 	} else if prop != "C20" && prop != "C11" {
 		// disk errors are part of every property's fault mix, at a lower rate
 		p.MergeFail = r.IntN(10) == 0
+		if !p.MergeFail && r.IntN(8) == 0 {
+			p.MergeFailN = 1 + r.IntN(2)
+		}
 		if r.IntN(12) == 0 {
 			p.ImportFail = 1 + r.IntN(2)
 		}
@@ -635,6 +642,12 @@ func Gen(prop, tier string, seed, run uint64) Plan {
 			k := []string{"import", "import", "merge"}[r.IntN(3)]
 			p.WriteFail = append(p.WriteFail, WriteFault{Kind: k, Seq: r.IntN(3), Limit: limits[r.IntN(len(limits))]})
 		}
+	}
+	if prop == "C11" && r.IntN(6) == 0 && len(mutOps) > 0 {
+		// disk full while a tag call saves the state: whatever the call answers,
+		// the tag graph must stay well-formed (atomicity of that one call is not judged)
+		o := p.Ops[len(impOps)+r.IntN(len(mutOps))]
+		p.WriteFail = append(p.WriteFail, WriteFault{Kind: "api", OpID: o.ID, Limit: []int64{1, 16, 100}[r.IntN(3)]})
 	}
 	if prop == "C12" && r.IntN(3) == 0 && len(mutOps) > 0 {
 		// disk full while an API call saves the state
